@@ -916,7 +916,7 @@ class X12ContextReader(object):
                     #pop_loops = [x12_node for x12_node in pop_loops if x12_node.get_path().find(loop_id) == -1]
                     cur_tree = X12LoopDataNode(x12_node=self.x12_map_node.parent, end_loops=pop_loops)  # parent=cur_data_node)
                     cur_data_node = self._add_segment(cur_tree, self.x12_map_node, seg, pop_loops, push_loops)
-                    cur_data_node.seg_count = self.src.get_seg_count()
+                    cur_data_node.seg_count = self._position_in_set(seg)
                     cur_data_node.cur_line_number = self.src.get_cur_line()
                 elif cur_tree is None:
                     # The requested loop is a table (HEADER, DETAIL, FOOTER) whose first segment is
@@ -927,13 +927,13 @@ class X12ContextReader(object):
                     inner_loops = push_loops[push_loops.index(root_x12_node) + 1:] if root_x12_node in push_loops else []
                     cur_tree = X12LoopDataNode(x12_node=root_x12_node, end_loops=pop_loops)
                     cur_data_node = self._add_segment(cur_tree, self.x12_map_node, seg, [], inner_loops)
-                    cur_data_node.seg_count = self.src.get_seg_count()
+                    cur_data_node.seg_count = self._position_in_set(seg)
                     cur_data_node.cur_line_number = self.src.get_cur_line()
                 else:
                     if cur_data_node is None or self.x12_map_node is None:
                         raise errors.EngineError('Either cur_data_node or self.x12_map_node is None')
                     cur_data_node = self._add_segment(cur_data_node, self.x12_map_node, seg, pop_loops, push_loops)
-                    cur_data_node.seg_count = self.src.get_seg_count()
+                    cur_data_node.seg_count = self._position_in_set(seg)
                     cur_data_node.cur_line_number = self.src.get_cur_line()
             else:
                 if cur_tree is not None:
@@ -948,11 +948,11 @@ class X12ContextReader(object):
                     assert loop_id not in [x12.id for x12 in push_loops], 'Loop ID %s should not be in push loops' % (loop_id)
                     assert loop_id not in [x12.id for x12 in pop_loops], 'Loop ID %s should not be in pop loops' % (loop_id)
                     cur_data_node = X12SegmentDataNode(self.x12_map_node, seg, push_loops, pop_loops)
-                    cur_data_node.seg_count = self.src.get_seg_count()
+                    cur_data_node.seg_count = self._position_in_set(seg)
                     cur_data_node.cur_line_number = self.src.get_cur_line()
                 else:
                     cur_data_node = X12SegmentDataNode(self.x12_map_node, seg)
-                    cur_data_node.seg_count = self.src.get_seg_count()
+                    cur_data_node.seg_count = self._position_in_set(seg)
                     cur_data_node.cur_line_number = self.src.get_cur_line()
                 # Get errors caught by x12Reader
                 errh.handle_errors(self.src.pop_errors())
@@ -1006,6 +1006,14 @@ class X12ContextReader(object):
         return self.src.get_cur_line()
 
     #{ Private Methods
+    def _position_in_set(self, seg):
+        """
+        The position of the segment in its transaction set.  The reader does not count SE.
+        """
+        if seg.get_seg_id() == 'SE':
+            return self.src.get_seg_count() + 1
+        return self.src.get_seg_count()
+
     def _add_segment(self, cur_data_node, segment_x12_node, seg_data, pop_loops, push_loops):
         """
         From the last position in the X12 Data Node Tree, find the correct
